@@ -35,6 +35,21 @@ package mod
 //@   ensures[flushed] err == nil ==> dm.wrBuf == nil && dm.writeStart == old(landing(dm))
 //@   ensures[offset_kept] dm.curWrOff == old(dm.curWrOff)
 //@   ensures[nothing_buffered] old(dm.wrBuf) == nil ==> err == nil && dm.writeStart == old(dm.writeStart)
+// Truncate first writes out what is buffered - a write that was accepted is never dropped, also when the
+// file is cut to nothing afterwards, and the position of the next Write moves on with it - and only then
+// decides between cutting, growing and leaving the file alone
+//@ func (*DagModifier).dagTruncate
+//@   assumed
+//@   modifies heap
+//@ func (*DagModifier).Truncate
+//@   prop C10
+//@   arith bv
+//@   requires dm != nil
+//@   modifies all
+//@   site[buffered_data_is_written_out_first] call:DagModifier.Sync : dm.wrBuf == old(dm.wrBuf) && dm.writeStart == old(dm.writeStart) && dm.curWrOff == old(dm.curWrOff)
+//@   site[size_is_read_after_the_sync] call:DagModifier.Size : called("call:DagModifier.Sync#0") && res("call:DagModifier.Sync#0", 0) == nil
+//@   site[grows_by_the_difference] call:DagModifier.expandSparse : arg1 == size - res("call:DagModifier.Size#0", 0)
+//@   ensures[same_size_changes_nothing_else] err == nil && called("call:DagModifier.Size#0") && size == res("call:DagModifier.Size#0", 0) ==> !called("call:DagModifier.dagTruncate#0") && !called("call:DagModifier.expandSparse#0")
 // (GetNode syncs the write buffer and may collapse a single-leaf file to a raw leaf: the modifier's own
 // state, the DAG service and nothing of its callers)
 //@ func (*DagModifier).GetNode
